@@ -1192,6 +1192,33 @@ def c19_cli(ctx, broken):
                         "violation": {"kind": "c19-cli", "what": f"{name} accepted a damaged file and gave a different result", "fault": what,
                                       "expected_rows": len(ref_out[name][1] or []), "observed_rows": len(res or [])}}
         nontriv += 1
+    # the subcommands that read their .skf with a thread count: one flipped bit in every byte of the file (quick: about 450 bytes spread over it) and truncations through align / map / distance / lo with --threads 2-4 - a loader must not depend
+    # on the thread count
+    tcmds = {
+        "align --threads 2": lambda p: ["align", p, "--filter", "no-filter", "--min-freq", "0", "--threads", "2"],
+        "map --threads 3": lambda p: ["map", os.path.join(d, "ref.fa"), p, "--threads", "3"],
+        "distance --threads 2": lambda p: ["distance", p, "--threads", "2"],
+    }
+    tref = {}
+    for name, mk in tcmds.items():
+        code, out, err = ska(mk(os.path.join(d, "good.skf")), d)
+        tref[name] = (code, sorted_rows(out))
+    bad = os.path.join(d, "badt.skf")
+    step = 1 if thorough else max(1, len(good) // 450)
+    for pos in range(rnd.randrange(step), len(good), step):
+        dmg = bytearray(good)
+        dmg[pos] ^= 1 << rnd.randrange(8)
+        variants = [(f"flip in byte {pos}", bytes(dmg))] + ([(f"truncate {pos}", bytes(good[:pos]))] if (pos // step) % 8 == 0 else [])
+        for what, blob in variants:
+            open(bad, "wb").write(blob)
+            for name in (list(tcmds) if (thorough or (pos // step) % 8 == 0) else ["align --threads 2"]):
+                code, out, err = ska(tcmds[name](bad), d)
+                evals += 1
+                nontriv += 1
+                if code == 0 and sorted_rows(out) != tref[name][1]:
+                    return {"summary": {"evaluations": evals, "nontrivial": nontriv},
+                            "violation": {"kind": "c19-cli", "what": f"{name} accepted a damaged file and gave a different result", "fault": what,
+                                          "file_bytes": len(good), "expected_rows": len(tref[name][1]), "observed_rows": len(sorted_rows(out))}}
     # files as the overwriting subcommands leave them: after an in-place `ska delete` and an in-place `ska weed`
     # every fault in the tail of the file (where anything appended or rewritten last would sit) through nk --full-info
     for how in ("delete", "weed"):
